@@ -65,8 +65,12 @@ Nest(shape, inner, b) ==
   ELSE <<Wrap(Head(shape), <<T(NLs(b) \o <<121>>)>> \o Nest(Tail(shape), inner, b) \o <<T(<<122>>)>>)>>
 
 \* pad: the failing construct itself spans lines (newlines inside its delimiters), and so does an object before it
+\* dup: the very text of the failing construct also stands earlier in the template, on another line, where it is not
+\* rendered (a branch not taken): the error is located at the occurrence that failed
 Cases == {x \in [k : ParseKinds \cup RenderKinds, shape : UNION {Shapes(n) : n \in 0..D}, a : 0..2, b : 0..1,
-                 path : BOOLEAN, line0 : {0, 1, 5}, pad : {0, 2}] :
+                 path : BOOLEAN, line0 : {0, 1, 5}, pad : {0, 2}, dup : {FALSE}]
+               \cup [k : {"filtererr", "nofilter", "strict", "converr", "ifcond", "assignerr"}, shape : UNION {Shapes(n) : n \in 0..1}, a : 0..1, b : {0},
+                      path : BOOLEAN, line0 : {0, 5}, pad : {0}, dup : {TRUE}] :
             \* an unterminated block swallows the wrappers' end tags: only at depth 0
             /\ (x.k = "openif" => x.shape = <<>>)
             \* `when` directly inside case is not stray
@@ -76,9 +80,10 @@ Cases == {x \in [k : ParseKinds \cup RenderKinds, shape : UNION {Shapes(n) : n \
 
 Padded(n, k) == IF k = 0 THEN n ELSE n @@ [padnl |-> k]
 Before(x) == IF x.pad = 0 THEN <<>> ELSE <<Padded(Ob(Lit(IntV(7))), 1)>>
-ProgOf(x) == <<T(<<120>> \o NLs(x.a))>> \o Before(x) \o Nest(x.shape, <<Padded(Bad(x.k), x.pad)>>, x.b) \o <<T(<<10, 101>>)>>
+Untaken(x) == IF x.dup THEN <<[t |-> "if", branches |-> <<[c |-> Lit(Bool(FALSE)), body |-> <<Bad(x.k)>>]>>], T(<<10>>)>> ELSE <<>>
+ProgOf(x) == Untaken(x) \o <<T(<<120>> \o NLs(x.a))>> \o Before(x) \o Nest(x.shape, <<Padded(Bad(x.k), x.pad)>>, x.b) \o <<T(<<10, 101>>)>>
 \* the line on which the failing construct begins, by construction
-StaticLine(x) == x.line0 + x.a + x.b * Len(x.shape) + (IF x.pad = 0 THEN 0 ELSE 1) + (IF x.k = "captureinner" THEN 1 + x.pad ELSE 0)
+StaticLine(x) == (IF x.dup THEN 1 ELSE 0) + x.line0 + x.a + x.b * Len(x.shape) + (IF x.pad = 0 THEN 0 ELSE 1) + (IF x.k = "captureinner" THEN 1 + x.pad ELSE 0)
 PathOf(x) == IF x.path THEN <<100, 47, 116, 46, 108, 105, 113>> ELSE <<>>          \* d/t.liq
 
 Cx(x) == [Cx0 EXCEPT !.strict = (x.k = "strict"), !.path = PathOf(x), !.line0 = x.line0,
@@ -91,7 +96,7 @@ Next == st.status = "run" /\ st' = Step(Cx(c), st) /\ c' = c
 ErrLocated == (c.k \in RenderKinds /\ st.status # "run") => st.status = "error" /\ (st.err.line = StaticLine(c) \/ c.k = "whenerr")
 NoOutputAfterError == (c.k \in RenderKinds /\ st.status = "error") => st.sink.calls <= 2 * Len(c.shape) + 2
 
-IdOf(x) == x.k \o "-" \o ToString(x.shape) \o "-" \o ToString(x.a) \o ToString(x.b) \o ToString(x.path) \o ToString(x.line0) \o ToString(x.pad)
+IdOf(x) == (IF x.dup THEN "dup-" ELSE "") \o x.k \o "-" \o ToString(x.shape) \o "-" \o ToString(x.a) \o ToString(x.b) \o ToString(x.path) \o ToString(x.line0) \o ToString(x.pad)
 EmitCase == st.status # "run" =>
   PrintT(ToJson([id |-> IdOf(c), kind |-> "render", tm |-> "TraceC07", prog |-> ProgOf(c), env |-> <<>>,
                  strict |-> (c.k = "strict"), path |-> PathOf(c), line0 |-> c.line0, usedir |-> TRUE, reline |-> TRUE,
